@@ -537,7 +537,8 @@ theorem countLoop_run (n : Nat) (hn : 1 ≤ n) (t : Bytes) (c : Cell) (htok : To
   have hpos : 0 < (runText n t).length := List.length_pos_iff.mpr hne
   have hlen : ¬ (0 ≥ (runText n t).length) := by omega
   unfold countLoop
-  simp only [h0, h47, ne_eq, not_false_eq_true, and_self, ↓reduceIte, skipNext_run n hn t c htok hsc, bind,
+  simp only [h0, h47, ne_eq, not_false_eq_true, and_self, ↓reduceIte,
+    skipNextPrintedArg_checkFuel (skipNext_run n hn t c htok hsc (runText n t).length 0 recent true false), bind,
     Except.bind, skipSpace, hd_nil, not_true_eq_false, pure, Except.pure, List.length_nil, hlen]
   simp [countLoop]
 
